@@ -156,9 +156,21 @@ def build(work, instances, need_run=True, jobs=run.NCPU):
         gp = os.path.join(d, "g.rustemo")
         with open(gp, "w") as f:
             f.write(inst["grammar"])
+        if inst.get("history"):
+            # the same grammar compiled to the same place with OTHER settings first: what is on
+            # disk afterwards has to be the parser of the LAST compilation
+            st0 = dict(inst["settings"], force=True)
+            st0["gen"] = "functions" if st0.get("gen") == "arrays" else "arrays"
+            st0["algo"] = "lr" if st0.get("algo") == "glr" else "glr"
+            reqs.append({"id": inst["name"] + "~pre", "grammar_path": gp, "settings": st0,
+                         "out_dir": d, "out_dir_actions": d})
         reqs.append({"id": inst["name"], "grammar_path": gp, "settings": dict(inst["settings"], force=True),
                      "out_dir": d, "out_dir_actions": d})
-    shards = [reqs[i::jobs] for i in range(jobs)]
+    shards = [[] for _ in range(jobs)]
+    names = sorted({r["id"].split("~")[0] for r in reqs})
+    slot = {n: i % jobs for i, n in enumerate(names)}
+    for r in reqs:
+        shards[slot[r["id"].split("~")[0]]].append(r)
 
     def gen(k):
         if not shards[k]:
